@@ -50,7 +50,7 @@ var props = map[string]*propSpec{
 	},
 	"C02": {
 		Level: "exploration",
-		Rule: "one run = configuration x 1-4 RPCs whose handlers execute a random permutation of SetHeader/SendHeader/Send/SetTrailer ending in a random status (17 codes, messages, details), random request metadata (outgoing context and/or per-RPC credentials, -bin values), random call options and caller Header/Recv/Trailer orders x schedule; " +
+		Rule: "one run = configuration x 1-4 RPCs whose handlers execute a random permutation of SetHeader/SendHeader/Send/SetTrailer ending in a random status (17 codes, messages, details) or a plain error (io.EOF, a wrapped io.EOF, errors.New: the caller sees Unknown with its text), random request metadata (outgoing context and/or one or two per-RPC credentials options, -bin values), random call options and caller Header/Recv/Trailer orders x schedule; " +
 			"non-trivial = at least one RPC ran to its handler's own return and was compared against the reference model; distinct = distinct schedule digests",
 		Families:       []famPlan{{Family: "meta", Weight: 3}, {Family: "meta", Weight: 1, Param: map[string]int{"bare": 1}}, {Family: "meta", Weight: 1, Param: map[string]int{"nonutf8": 1}}, {Family: "cancel", Weight: 1}},
 		QuickBudget:    50 * time.Second,
@@ -82,7 +82,7 @@ var props = map[string]*propSpec{
 	},
 	"C05": {
 		Level: "exploration",
-		Rule: "family flowcore: the flow-control sender and receiver in isolation (verif constructors), window in {1,2,3,7,64,65536}, producer / frame pump / credit pump (single or batched credits) / pausing consumer / canceller goroutines, scheduling points at every atomic operation, lock and channel operation; conservation (sender window + bytes in flight + receiver queue + credit in flight <= window) is checked atomically after every harness step, a stall is legitimate only with the consumer parked on a full window, the window must be fully restored at the end; family flow: 2-12 streams over a whole tunnel with stalled-then-resumed consumers and carrier capacity from one frame; volume runs: 70000 (thorough 200000) one-byte messages on one stream; " +
+		Rule: "family flowcore: the flow-control sender and receiver in isolation (verif constructors), window in {1,2,3,7,64,65536}, producer / frame pump / credit pump (single or batched credits) / pausing consumer / canceller goroutines, scheduling points at every atomic operation, lock and channel operation; conservation (sender window + bytes in flight + receiver queue + credit in flight <= window) is checked atomically after every harness step, a stall is legitimate only with the consumer parked on a full window, the window must be fully restored at the end; family flow: 2-12 streams over a whole tunnel with stalled-then-resumed consumers and carrier capacity from one frame, the two directions of a stream judged separately when the other end reads and sends from two goroutines (a parked reader must not hold up the opposite direction); volume runs: 70000 (thorough 200000) one-byte messages on one stream; " +
 			"non-trivial = a sender actually waited on a zero window / a run stalled on full windows or carried multi-chunk messages; distinct = distinct schedule digests",
 		Families:       []famPlan{{Family: "flowcore", Weight: 4}, {Family: "flow", Weight: 3, Batch: 10}, {Family: "flow", Weight: 1, Batch: 1, Param: map[string]int{"volume": 1}}},
 		QuickBudget:    50 * time.Second,
@@ -114,7 +114,7 @@ var props = map[string]*propSpec{
 	},
 	"C10": {
 		Level: "fault_enumeration",
-		Rule: "per baseline (configuration x 0-3 in-flight RPCs kept open by handler sleeps x schedule) the fault-free run reports its N frames; graceful shutdown (InitiateShutdown / GracefulStop in its own goroutine) is then initiated at every frame boundary k (thorough; quick: stratified sample), 1-4 further RPCs are attempted afterwards (directly and through the pooled channel), the run is driven to final quiescence, then Stop is called; multistop variants: a second GracefulStop call while the first is pending, 1-3 overlapping Stop calls, and (teardown family) Stop / GracefulStop+Stop at a random frame with RPCs in flight - every single call is judged (Stop: every Serve returned and every handler ended or cancelled before it returns; GracefulStop: the RPCs in flight at the call have finished before it returns); " +
+		Rule: "per baseline (configuration x 0-3 in-flight RPCs kept open by handler sleeps x schedule) the fault-free run reports its N frames; graceful shutdown (InitiateShutdown / GracefulStop in its own goroutine) is then initiated at every frame boundary k (thorough; quick: stratified sample), 1-4 further RPCs are attempted afterwards (directly and through the pooled channel), the run is driven to final quiescence, then Stop is called; multistop variants: a second GracefulStop call while the first is pending, 1-3 overlapping Stop calls, and (teardown family) Stop / GracefulStop+Stop at a random frame with RPCs in flight, followed by a Serve call on the stopped server, which must be refused and leave nothing behind - every single call is judged (Stop: every Serve returned and every handler ended or cancelled before it returns; GracefulStop: the RPCs in flight at the call have finished before it returns); " +
 			"non-trivial = shutdown was initiated while at least one RPC was in flight; distinct = distinct schedule digests",
 		Families: []famPlan{{Family: "graceful", Weight: 3, Enum: true, EnumCauses: 2, EnumQuick: 12}, {Family: "graceful", Weight: 1}, {Family: "graceful", Weight: 1, Param: map[string]int{"multistop": 1}},
 			{Family: "teardown", Weight: 1, Param: map[string]int{"multistop": 1, "cause": 3}}, {Family: "teardown", Weight: 1, Param: map[string]int{"multistop": 1, "cause": 4}}},
@@ -159,7 +159,7 @@ var props = map[string]*propSpec{
 	},
 	"C14": {
 		Level: "exploration",
-		Rule: "the histories of the families of C01-C12 (message flow, metadata, teardown at every phase, cancellation, bystanders and disturbers, graceful shutdown, flow control, id races and raw id deviations, raw-peer fuzzing, window overruns, call shapes, negotiation matrix and settings variants, registry churn, concurrent control operations); every run ends with a drain to final quiescence (table sizes probed through the verif accessors, registry compared with the open tunnels) and a full shutdown (every tunnel ended, every context cancelled, all timers fired) after which any goroutine started by the library that is still alive is a leak; family soak: 3-6 (thorough 4-15) phases of 2-6 RPCs with assorted endings on one tunnel, quiescence between the phases, where the tables must be empty and the library's live goroutines (by spawn site) the same after every phase; " +
+		Rule: "the histories of the families of C01-C12 (message flow, metadata, teardown at every phase, cancellation, bystanders and disturbers, graceful shutdown, flow control, id races and raw id deviations, raw-peer fuzzing, window overruns, call shapes, negotiation matrix and settings variants, registry churn, concurrent control operations); every run ends with a drain to final quiescence (table sizes probed through the verif accessors, registry compared with the open tunnels) and a full shutdown (every tunnel ended, every context cancelled, all timers fired) after which any goroutine started by the library that is still alive is a leak; a Serve call on a stopped reverse tunnel server (teardown family) must leave the number of live goroutines at the next stall unchanged; family soak: 3-6 (thorough 4-15) phases of 2-6 RPCs with assorted endings on one tunnel, quiescence between the phases, where the tables must be empty and the library's live goroutines (by spawn site) the same after every phase; " +
 			"non-trivial = at least 3 goroutines were alive at once; distinct = distinct schedule digests",
 		Families: []famPlan{{Family: "teardown", Weight: 3}, {Family: "msgflow", Weight: 2}, {Family: "meta", Weight: 1}, {Family: "cancel", Weight: 2}, {Family: "bystander", Weight: 1},
 			{Family: "graceful", Weight: 1}, {Family: "flow", Weight: 1, Batch: 10}, {Family: "idrace", Weight: 1}, {Family: "idraw", Weight: 1}, {Family: "rawfuzz", Weight: 2}, {Family: "overrun", Weight: 1},
